@@ -28,7 +28,7 @@ fn main() {
     }
     let thorough = args.tier == Tier::Thorough;
     let mut c = Check::new("C12", args.tier, "exploration");
-    c.rule = "complete enumeration: BAR kind x power-of-two size x slot x address x prefetchable x initial command value (all 1024 combinations of defined bits for every BAR shape in the thorough tier, for a representative per kind in the quick tier plus 7 boundary commands for all); all assignments of {unused,32-bit,64-bit pair,I/O} to six slots; all 256x32x8x64 configuration addresses under both mechanisms; all 64 populations of 6 representative slots; all capability lists up to length 4 over 8 capability shapes in 2 placements. distinct = distinct outcome classes".into();
+    c.rule = "complete enumeration: BAR kind x power-of-two size x slot x address x prefetchable x initial command value (all 1024 combinations of defined bits for every BAR shape in the thorough tier, for a representative per kind in the quick tier plus 7 boundary commands for all); all assignments of {unused,32-bit,64-bit pair,I/O} to six slots; all 256x32x8x64 configuration addresses under both mechanisms; all 64 populations of 6 representative slots; all capability lists up to length 4 over 8 capability shapes, and lists of n = 5..48 minimal capabilities (48 fills configuration space) and 11/12 maximal ones, each in 2 placements. distinct = distinct outcome classes".into();
     c.assumptions = vec!["reserved command-register bits are read-only zero in the function model (PCI 3.0)".into(), "16-bit-decoder I/O BARs (upper half hard-wired zero) are not modelled".into()];
     // (1) bar_info
     let kinds = c12::bar_kinds(thorough);
@@ -140,6 +140,14 @@ fn main() {
         lists.extend(next.iter().cloned());
         frontier = next;
     }
+    // Long lists: n minimal (4-byte) capabilities for every n up to the 48 that fill the 192
+    // bytes after the header, and 12 maximal 16-byte ones.
+    for n in 5..=48usize {
+        lists.push((0..n).map(|i| CapSpec { id: 1 + (i % 0x14) as u8, body: vec![i as u8, 0xa5 ^ i as u8] }).collect());
+    }
+    for n in [11usize, 12] {
+        lists.push((0..n).map(|i| CapSpec { id: 9, body: (0..14).map(|b| (b * 16 + i) as u8).collect() }).collect());
+    }
     let mut ev = 0;
     for l in &lists {
         for rev in [false, true] {
@@ -149,7 +157,7 @@ fn main() {
             }
         }
     }
-    c.add_sweep(&format!("capabilities: all lists up to length {} over 8 shapes x 2 placements", maxlen), ev, lists.len() as u64, true, J::obj());
+    c.add_sweep(&format!("capabilities: all lists up to length {} over 8 shapes, long lists of 5..48 entries, x 2 placements", maxlen), ev, lists.len() as u64, true, J::obj());
     c.add_sample(J::obj().set("case", J::s("bar_info(slot 2) on Mem64{size 2^33, prefetchable} at 0x8_0000_0000 with command 0x0407 -> Memory{Width64, prefetchable, address, size}; command and BARs restored; sizing writes with decode off")));
     c.finish();
 }
